@@ -47,6 +47,7 @@ StepServedErr(e) ==
   /\ UNCHANGED <<C, D, drift>>
 
 Star(p) == [i \in 1..Len(p) |-> IF p[i] \in DOMAIN IdxOf THEN "*" ELSE p[i]]
+\* e.changed: the answer that reached the client differs from the honest one
 LieClass(f) == IF Len(f.edits) = 0 THEN "honest"
                ELSE (IF Len(f.edits) > 1 THEN "multi:" ELSE "") \o Join(Star(f.edits[1].path), ".")
 
@@ -71,7 +72,7 @@ StepCall(e) ==
        \cup FailIf(IF e.relayed THEN ~strict ELSE FALSE,
                    [l |-> l, inv |-> "RelaySound", scope |-> scope,
                     class |-> IF e.relayed /\ cons THEN (IF k = "Tx" THEN "Tx:result_unproven" ELSE "Validators:address_unbound")
-                              ELSE k \o ":" \o LieClass(e.f)])
+                              ELSE k \o ":" \o (IF e.changed THEN LieClass(e.f) ELSE "honest")])
        \cup FailIf(e.f = NoLie /\ ~e.relayed,
                    [l |-> l, inv |-> "RelayComplete", scope |-> scope,
                     class |-> k \o ":honest_rejected" \o (IF k = "ABCIQuery" /\ e.sent.value = Nil THEN ":absent" ELSE "")])
